@@ -663,6 +663,10 @@ func aliases(v, b ssa.Value, seen map[ssa.Value]bool) bool {
 				return true
 			}
 		}
+	case *ssa.TypeAssert:
+		return aliases(x.X, b, seen)
+	case *ssa.Extract:
+		return aliases(x.Tuple, b, seen)
 	case *ssa.UnOp:
 		if x.Op == token.MUL {
 			if a, ok := x.X.(*ssa.Alloc); ok {
@@ -671,10 +675,54 @@ func aliases(v, b ssa.Value, seen map[ssa.Value]bool) bool {
 						return true
 					}
 				}
+			} else {
+				// *p where p is the pooled pointer (sync.Pool of *[]byte)
+				return aliases(x.X, b, seen)
 			}
 		}
 	}
 	return false
+}
+
+// checkSyncPoolOwnership: the same ownership rule for sync.Pool: a value taken with Get and
+// given back with Put (call or defer) in f must not alias anything f returns on a path covered
+// by the Put. Returns the number of Get sites examined.
+func checkSyncPoolOwnership(r *Report, rule string, f *ssa.Function) int {
+	n := 0
+	for _, g := range Calls(f, false, "sync:Pool.Get") {
+		n++
+		b := g.(ssa.Value)
+		var puts []ssa.CallInstruction
+		for _, h := range WithAnon(f) {
+			for _, pc := range Calls(h, false, "sync:Pool.Put") {
+				if a := Arg(pc, 0); a != nil && aliases(a, b, map[ssa.Value]bool{}) {
+					puts = append(puts, pc)
+				}
+			}
+		}
+		bad := ""
+		for _, ret := range Returns(f) {
+			for i := range ret.Results {
+				if !aliases(RetVal(ret, i), b, map[ssa.Value]bool{}) {
+					continue
+				}
+				for _, pc := range puts {
+					if _, isDefer := pc.(*ssa.Defer); isDefer || pc.Parent() != f {
+						bad = "a value backed by the pooled buffer is returned while a deferred Put gives the buffer back"
+					} else if hits := WalkFrom(nil, pc.(ssa.Instruction), func(in ssa.Instruction) int {
+						if in == ssa.Instruction(ret) {
+							return Hit
+						}
+						return Cont
+					}, nil); len(hits) > 0 {
+						bad = "a value backed by the pooled buffer is returned after the buffer was Put back"
+					}
+				}
+			}
+		}
+		r.Ob(rule, CallPos(g), bad == "", map[bool]string{true: "pooled buffer is not part of what the function returns once it is Put back", false: bad + ": the next user of the pool overwrites bytes the caller still holds"}[bad == ""], r.P.FuncName(f), "sync-pool-ownership")
+	}
+	return n
 }
 
 // checkPoolOwnership: if the buffer is released in this function (call or
